@@ -5,25 +5,22 @@
  'kf': ['C03_move_overflow'],
  'loop_contracts_in_unit': 1,
  'clauses': 'for every RING(r) and every bias <= size: ring_move_head(r, bias) leaves the ring in exactly the state that `bias` calls of the real ring_move_head_one produce (co-simulated by a loop with an inductive invariant), likewise ring_move_tail / ring_move_tail_one; head (tail) == slot(old, bias), the other index and size unchanged, RING(r) preserved, r returned [known finding C03_move_overflow carved out: head + bias >= 2^32, possible only when size > 2^31]',
- 'inject': [{'file': 'igris/datastruct/ring.h', 'func': 'ring_fixup_head', 'loop': 0, 'expect': 'r->head >= r->size',
+ 'inject': [{'file': 'igris/datastruct/ring.h', 'func': 'ring_fixup_head', 'loop': 0, 'expect': 'r->head',
              'assigns': 'r->head',
-             'invariants': ['r->head <= g_idx0',
-                            'g_idx0 < r->size ==> r->head == g_idx0',
-                            '(g_idx0 >= r->size && g_idx0 - r->size < r->size) ==> (r->head == g_idx0 || r->head == g_idx0 - r->size)'],
+             'invariants': ['r->head <= __CPROVER_loop_entry(r->head)',
+                            '__CPROVER_loop_entry(r->head) < r->size ==> r->head == __CPROVER_loop_entry(r->head)',
+                            '(__CPROVER_loop_entry(r->head) >= r->size && __CPROVER_loop_entry(r->head) - r->size < r->size) ==> (r->head == __CPROVER_loop_entry(r->head) || r->head == __CPROVER_loop_entry(r->head) - r->size)'],
              'decreases': 'r->head'},
-            {'file': 'igris/datastruct/ring.h', 'func': 'ring_fixup_tail', 'loop': 0, 'expect': 'r->tail >= r->size',
+            {'file': 'igris/datastruct/ring.h', 'func': 'ring_fixup_tail', 'loop': 0, 'expect': 'r->tail',
              'assigns': 'r->tail',
-             'invariants': ['r->tail <= g_idx0',
-                            'g_idx0 < r->size ==> r->tail == g_idx0',
-                            '(g_idx0 >= r->size && g_idx0 - r->size < r->size) ==> (r->tail == g_idx0 || r->tail == g_idx0 - r->size)'],
-             'decreases': 'r->tail'},
-            {'file': 'igris/datastruct/ring.h', 'func': 'ring_move_head', 'ghost': 'g_idx0 = r->head;', 'at': 'before', 'anchor': 'ring_fixup_head(r);'},
-            {'file': 'igris/datastruct/ring.h', 'func': 'ring_move_tail', 'ghost': 'g_idx0 = r->tail;', 'at': 'before', 'anchor': 'ring_fixup_tail(r);'}],
+             'invariants': ['r->tail <= __CPROVER_loop_entry(r->tail)',
+                            '__CPROVER_loop_entry(r->tail) < r->size ==> r->tail == __CPROVER_loop_entry(r->tail)',
+                            '(__CPROVER_loop_entry(r->tail) >= r->size && __CPROVER_loop_entry(r->tail) - r->size < r->size) ==> (r->tail == __CPROVER_loop_entry(r->tail) || r->tail == __CPROVER_loop_entry(r->tail) - r->size)'],
+             'decreases': 'r->tail'}],
  'assumptions': ['RING(r)', 'bias <= size for ring_move_head/ring_move_tail (a bulk move never exceeds the number of slots; the only caller in the repository, tests/ring.cpp, moves by 4 in a ring of 10)'],
  'witness': {'unwind': 8},
 } @*/
 #include "c03_ring.h"
-uint g_idx0; /* ghost: value of the index when the fix-up loop is entered */
 #include <igris/datastruct/ring.h>
 
 void harness(void)
